@@ -222,8 +222,7 @@ def run(ck, facts):
                     for i, e in enumerate(pr):
                         if e in (".ok", ".err") and i > 0 and pr[i - 1] == ".value":
                             txt.append(e[1:])
-                if s["rv"]["k"] == "agg" and s["rv"].get("union_field") in ("ok", "err"):
-                    txt.append(s["rv"]["union_field"])
+                # building a union value is judged by the constructor pairing below (flag constant in the same aggregate), not by the path rule
                 arms += txt
             t = b["term"]
             if t["k"] == "call":
@@ -245,6 +244,8 @@ def run(ck, facts):
                         okp = False
                 ck.expect(okp, "R4", "%s/bb%d/%s" % (f["path"], b["id"], arm), "arm `%s` only on the is_ok=%s edge" % (arm, want), "union arm `%s` is accessed on a path where is_ok is not known to be %s" % (arm, want), C.loc(f))
         # aggregates: flag constant agrees with the union arm built for the same value
+        n_union = sum(1 for b in mir["blocks"] if not b.get("cleanup") for s in b["stmts"] if s["k"] == "assign" and s["rv"]["k"] == "agg" and s["rv"].get("union_field") in ("ok", "err"))
+        n_paired = 0
         for b in mir["blocks"]:
             if b.get("cleanup"):
                 continue
@@ -255,9 +256,12 @@ def run(ck, facts):
                     flag = m.sym_op(fl["is_ok"])
                     arm = v[3] if isinstance(v, tuple) and v[0] == "agg" else None
                     n_acc += 1
+                    n_paired += 1 if arm else 0
                     ck.expect((arm, flag) in (("ok", ("const", "true")), ("err", ("const", "false"))), "R4", "%s/construct-%s" % (f["path"], arm), "is_ok = %s" % (flag,),
                               "DiplomatResult is built with union arm `%s` but is_ok = %s" % (arm, sym_show(flag)), C.loc(f, s.get("ln")))
-    if n_acc < 12:
+        if n_union > n_paired:
+            ck.bad("R4", "%s/union-without-flag" % f["path"], "%d payload union value(s) are built here but only %d are paired with an is_ok constant in the same DiplomatResult aggregate" % (n_union, n_paired), C.loc(f))
+    if n_acc < 8:
         ck.bad("R4", "floor", "only %d union-arm accesses examined" % n_acc)
 
     # ---------------- R5 record shapes (C, C++ via C, Dart, Kotlin) + gen_result_ty data-flow
